@@ -247,8 +247,9 @@ def _gen_pool(rng, sw):
     feat = {"hyper": sw.random() < 0.3, "out_hyper": sw.random() < 0.3, "repeated": sw.random() < 0.2,
             "dangling_sum": sw.random() < 0.3, "scalar": sw.random() < 0.1, "outer": sw.random() < 0.15}
     nmax = sw.choice([3, 4, 6])
+    dims = sw.choice([(2, 2, 3), (2, 2, 3), (1, 2, 2, 3)])  # a third of the pools have dimensions of size 1
     while True:
-        inputs, output, size_dict = netgen.gen_network(rng, n_min=2, n_max=nmax, max_inds=9, dims=(2, 2, 3),
+        inputs, output, size_dict = netgen.gen_network(rng, n_min=2, n_max=nmax, max_inds=9, dims=dims,
                                                        max_rank=4, space_cap=2 ** 14, feat=feat)
         if size_dict:
             break
